@@ -17,8 +17,15 @@ rule (m > 0 <-> even j, m < 0 <-> odd j) and non-decreasing n, ANSI closed form 
 A second unit pushes every valid (n,m) with n <= 400 / 1500 through nm_to_* and back.
 History units: every ordered pair of calls over an index alphabet and full ascending / descending / scattered sweeps in one process
 (the maps must not depend on earlier calls).
+Argument-form units: the index (and n, m of the inverse maps) spelled in every numpy scalar type and as 0-d arrays, on exactly the
+(map, form, index range) cells the pinned tree answers correctly (table DOMAIN below); 0-d index objects must come back unchanged and
+convert the same a second time.  Cross-form history units: an earlier call in ANY spelling (also one outside the domain, whose own answer
+is not judged), then the plain-int call, on a freshly executed copy of the map's module.
 """
 import functools
+import importlib.util
+import inspect
+import sys
 
 import numpy as np
 
@@ -27,12 +34,15 @@ from mc import ScopeUnit, FAILED
 from prysm import polynomials as pp
 
 # the maps take and return plain integers: the ndarray call-hygiene layer of Recorder.call has nothing to look at and is switched off
-# (hygiene=False) for speed; statefulness between calls is the job of the history units below
+# (hygiene=False) for speed, except where the index is handed over as a 0-d array (forms_forward); statefulness between calls is the
+# job of the history units below
 ID = 'C11'
 ASSUMPTIONS = [
     'published orders: Noll 1976 (rows n, |m| ascending, even j <-> cosine); Fringe (groups n+|m|, |m| descending, cosine first); '
     'ANSI Z80.28 (j = (n(n+2)+m)/2); XY in the Code V order documented in prysm/polynomials/xy.py with piston as j=1',
-    'indices are python ints (numpy int64 additionally on the first block)',
+    'indices are python ints (numpy int64 additionally on the first block); other spellings of an index belong to the domain exactly on the cells '
+    'measured on the tree (DOMAIN in props/c11.py): since the fix "ansi_j_to_nm and noll_to_nm convert the index to a Python int" every numpy integer '
+    'type is in the domain of those two maps over its whole range (before it, narrow / unsigned types wrapped inside them: recorded as fixed findings)',
 ]
 
 
@@ -298,14 +308,114 @@ def run_history_sweep(case, seed, R):
 
 
 # ---------------------------------------------------------------------------------------------
-# argument forms: python int, numpy int32, numpy int64 (indices routinely come out of np.arange / array shapes)
+# argument forms.  A form is a spelling of an integer: python int / float, every numpy integer and floating scalar type (signed,
+# UNSIGNED, narrow) and the 0-d array of each (what np.asarray(j), arr.max(), a column of a file header hand around).
+# A (map, form, index range) cell belongs to the domain iff the pinned tree answers it correctly; the cells were measured on the pinned
+# tree (every index up to 200000 for ansi / fringe, every index up to 5000 then stride 37 up to 200000 and the dtype limits for noll /
+# xy) and are written down here as the LARGEST index B such that every index first..B is answered correctly in that form:
+#   * ansi_j_to_nm / noll_to_nm: on the pinned tree they computed 9 + 8*idx, 2*idx - n(n+2), idx - nseries - 1 in the index's own type
+#     (int8 wrapped above 14 / 15, int16 above 4094 / 4095, every unsigned type at j = 1 / 2, float16 rounded above 1034, noll refused
+#     floats): genuine defect, repaired by "fix: ansi_j_to_nm and noll_to_nm convert the index to a Python int" -- since then every
+#     integer type over its whole range, float16 up to 2048 (exactly representable integers), float32 / float64 up to the bound;
+#   * fringe_to_nm promotes to float64 first: every integer type over its whole range; float16 up to 1024 (sqrt rounding);
+#   * xy_j_to_mn compares / subtracts python ints: correct up to the last triangular number the type can hold
+#     (int8: 120, uint8: 253, int16: 32640, uint16: 65341).
+# Indices outside a cell are never judged in that form (they appear only as UNJUDGED earlier calls in the history_forms unit).
+WIDE = 200_000          # the bound up to which the wide types were measured
+NP_TYPES = ('int8', 'int16', 'int32', 'int64', 'uint8', 'uint16', 'uint32', 'uint64', 'float16', 'float32', 'float64')
+DOMAIN = {
+    'ansi': {'int8': 127, 'int16': 32767, 'int32': WIDE, 'int64': WIDE, 'uint8': 255, 'uint16': 65535, 'uint32': WIDE, 'uint64': WIDE,
+             'float16': 2048, 'float32': WIDE, 'float64': WIDE},
+    'fringe': {'int8': 127, 'int16': 32767, 'int32': WIDE, 'int64': WIDE, 'uint8': 255, 'uint16': 65535, 'uint32': WIDE, 'uint64': WIDE,
+               'float16': 1024, 'float32': WIDE, 'float64': WIDE},
+    'noll': {'int8': 127, 'int16': 32767, 'int32': WIDE, 'int64': WIDE, 'uint8': 255, 'uint16': 65535, 'uint32': WIDE, 'uint64': WIDE,
+             'float16': 2048, 'float32': WIDE, 'float64': WIDE},
+    'xy': {'int8': 120, 'int16': 32640, 'int32': WIDE, 'int64': WIDE, 'uint8': 253, 'uint16': 65341, 'uint32': WIDE, 'uint64': WIDE,
+           'float16': 2048, 'float32': WIDE, 'float64': WIDE},
+}
+PY_FORMS = {'int': int, 'float': float}
+PY_DOMAIN = {'ansi': ('int', 'float'), 'fringe': ('int', 'float'), 'xy': ('int', 'float'), 'noll': ('int', 'float')}
 
-FORMS = {'int': int, 'int32': np.int32, 'int64': np.int64, 'float': float, 'float64': np.float64}
-INT_FORMS = ('int', 'int32', 'int64')
-# Integer-valued floats are accepted by every map of the pinned tree except noll_to_nm (bitwise parity test on the index) and the m
-# argument of nm_to_name (same parity helper); refusing a non-integer *type* for an index is what Python itself does, the property
-# quantifies over integers -- those two combinations are left out of the alphabet (stated in the rule), all others must keep working.
-FWD_FORMS = {'ansi': tuple(FORMS), 'fringe': tuple(FORMS), 'xy': tuple(FORMS), 'noll': INT_FORMS}
+# forms of the inverse maps' (n, m) arguments: only types wide enough for n(n+2) (the narrow ones overflow on the pinned tree from n = 10)
+FORMS = {'int': int, 'int32': np.int32, 'int64': np.int64, 'float': float, 'float64': np.float64,
+         'uint32': np.uint32, 'uint64': np.uint64, 'float32': np.float32,
+         '0d:int64': lambda v: np.array(v, dtype=np.int64), '0d:uint32': lambda v: np.array(v, dtype=np.uint32),
+         '0d:float64': lambda v: np.array(v, dtype=np.float64)}
+INT_FORMS = ('int', 'int32', 'int64', 'uint32', 'uint64', '0d:int64', '0d:uint32')
+UNSIGNED_FORMS = ('uint32', 'uint64', '0d:uint32')
+
+
+def form_bound(conv, form):
+    """largest index of the domain cell of (map, form); -1 if the form is not in the map's domain at all."""
+    if form in PY_FORMS:
+        return WIDE if form in PY_DOMAIN[conv] else -1
+    return DOMAIN[conv].get(form.split(':')[1], -1)
+
+
+def form_make(form, v):
+    """the value v spelled in the given form, or None if the form cannot hold it exactly."""
+    if form in PY_FORMS:
+        return PY_FORMS[form](v)
+    kind, dt = form.split(':')
+    d = np.dtype(dt)
+    if d.kind in 'iu':
+        ii = np.iinfo(d)
+        if not ii.min <= v <= ii.max:
+            return None
+    elif abs(v) > 2 ** (np.finfo(d).nmant + 1):
+        return None
+    x = np.array(v, dtype=d) if kind.startswith('0d') else d.type(v)
+    if kind == '0d-ro':
+        x.flags.writeable = False
+    return x
+
+
+def forward_forms(conv):
+    """every form with a non-empty domain cell for this map"""
+    out = [f for f in PY_FORMS if form_bound(conv, f) >= 0]
+    out += [f'sc:{dt}' for dt in NP_TYPES if dt in DOMAIN[conv]]
+    out += [f'0d:{dt}' for dt in NP_TYPES if dt in DOMAIN[conv]]
+    out += ['0d-ro:int64']
+    return out
+
+
+POW2 = {2 ** p + d for p in range(7, 18) for d in (-2, -1, 0, 1)}
+
+
+def _probe_indices():
+    """where float sqrt / ceil and fixed-width integer arithmetic go wrong: around perfect squares, triangular numbers, powers of two"""
+    s = set(POW2)
+    for k in range(45, 448):
+        for d in (-1, 0, 1, 2):
+            s.add(k * k + d)
+            s.add(k * (k + 1) // 2 + d)
+    return s
+
+
+PROBES = _probe_indices()
+
+
+PM_XY_0D = 20_000
+JF_XY_0D = 500
+
+
+def form_indices(conv, form, JF, PM):
+    """every index <= JF, the probe indices up to PM, and the last 40 indices of a cell that ends below PM -- all inside the cell.
+    (xy_j_to_mn walks ~sqrt(2j) steps of 0-d array arithmetic per call: its 0-d forms take every index <= 500 and the square / triangular probes up to 20000.)"""
+    j0 = first_index(conv, 0)
+    B = form_bound(conv, form)
+    top = min(B, PM)
+    if conv == 'xy' and form.startswith('0d'):
+        JF = min(JF, JF_XY_0D)
+        s = set(range(j0, min(JF, top) + 1))
+        s.update(v for v in PROBES if JF < v <= min(top, PM_XY_0D))
+        s.update(v for v in POW2 if JF < v <= top)
+    else:
+        s = set(range(j0, min(JF, top) + 1))
+        s.update(v for v in PROBES if JF < v <= top)
+    if B < PM:
+        s.update(range(max(j0, B - 40), B + 1))
+    return sorted(s)
 
 
 def as_pair_value(out):
@@ -334,20 +444,72 @@ def as_int_value(out):
         return None
 
 
+def fam(form):
+    """signature class of a form: container kind x type family (one defect must not produce a signature per dtype)"""
+    if ':' not in form:
+        return form
+    kind, dt = form.split(':')
+    return kind + ':' + {'i': 'signed', 'u': 'unsigned', 'f': 'float'}[np.dtype(dt).kind]
+
+
+def _is_int_form(form):
+    return form == 'int' or (':' in form and np.dtype(form.split(':')[1]).kind in 'iu')
+
+
+def _holds(x, form, j):
+    """the 0-d index object still is what the caller made it"""
+    try:
+        return isinstance(x, np.ndarray) and x.shape == () and x.dtype == np.dtype(form.split(':')[1]) and int(x) == j
+    except Exception:   # noqa
+        return False
+
 
 def run_forms_forward(case, seed, R):
-    conv, form, j0, j1 = case['conv'], case['form'], case['j0'], case['j1']
+    conv, form = case['conv'], case['form']
     fn = FWD[conv]
     f = getattr(pp, fn)
-    cast = FORMS[form]
-    ref = _ref_table(conv, 2 * j1 + 10)
+    ref = _ref_table(conv, case['PM'] + 10)
+    pair = as_pair if _is_int_form(form) else as_pair_value
+    zero_d = form.startswith('0d')
+    fm = fam(form)
     N = Notes(R)
-    for j in range(max(j0, first_index(conv, 0)), j1):
-        out = R.call(f, cast(j), hygiene=False, sig=f'{fn}:{form}:exception')
-        if out is FAILED:
+    buf = None
+    if form.startswith('0d:'):
+        buf = np.zeros((), dtype=form.split(':')[1])
+    for j in form_indices(conv, form, case['JF'], case['PM'])[case['part']::case['parts']]:
+        x = form_make(form, j)
+        if x is None:
             continue
-        ok, n, m = as_pair(out) if form in INT_FORMS else as_pair_value(out)
-        N.check(ok and (n, m) == ref[j], f'{fn}:{form}', lambda: f'{fn}({form}({j})) returned {out!r}; the published order has {ref[j]}')
+        # 0-d arrays go through the call-hygiene layer (argument snapshot); scalars are immutable
+        out = R.call(f, x, hygiene=zero_d, sig=f'{fn}:{fm}:exception')
+        if out is not FAILED:
+            ok, n, m = pair(out)
+            N.check(ok and (n, m) == ref[j], f'{fn}:{fm}', lambda: f'{fn}({form}({j})) returned {out!r}; the published order has {ref[j]}')
+        if not zero_d:
+            continue
+        # the caller's index object: unchanged by the call, and converted a second time it gives the same order
+        N.check(_holds(x, form, j), f'{fn}:{fm}:argument-modified', lambda: f'after {fn}(x) with x = {form}({j}) the caller\'s x is {x!r}')
+        x = form_make(form, j) if not _holds(x, form, j) else x
+        out = R.call(f, x, hygiene=False, sig=f'{fn}:{fm}:exception')
+        if out is not FAILED:
+            ok, n, m = pair(out)
+            N.check(ok and (n, m) == ref[j], f'{fn}:{fm}:second-call-same-object',
+                    lambda: f'{fn}(x) called a second time with the same x = {form}({j}) returned {out!r}; the published order has {ref[j]}')
+        N.check(_holds(x, form, j), f'{fn}:{fm}:argument-modified', lambda: f'after the second {fn}(x) with x = {form}({j}) the caller\'s x is {x!r}')
+        if buf is not None:
+            # one index object reused for every index (buf[...] = j): an identity-keyed memo would answer for the old content
+            try:
+                buf[...] = j
+            except Exception:   # noqa -- someone froze the caller's buffer
+                buf = np.zeros((), dtype=form.split(':')[1])
+                buf[...] = j
+            out = R.call(f, buf, hygiene=False, sig=f'{fn}:{fm}:exception')
+            if out is not FAILED:
+                ok, n, m = pair(out)
+                N.check(ok and (n, m) == ref[j], f'{fn}:{fm}:reused-object',
+                        lambda: f'{fn}(buf) after buf[...] = {j} (one 0-d {form} object reused for every index) returned {out!r}; the published order has {ref[j]}')
+            if not N.check(_holds(buf, form, j), f'{fn}:{fm}:argument-modified', lambda: f'after {fn}(buf) with buf[...] = {j} the caller\'s buf is {buf!r}'):
+                buf = np.zeros((), dtype=form.split(':')[1])
     R.nontrivial()
     R.outcome('forms:' + conv)
 
@@ -355,17 +517,30 @@ def run_forms_forward(case, seed, R):
 def run_forms_inverse(case, seed, R):
     fn_, fm_, a, b = case['form_n'], case['form_m'], case['n0'], case['n1']
     cn, cm = FORMS[fn_], FORMS[fm_]
+    both_int = fn_ in INT_FORMS and fm_ in INT_FORMS
     N = Notes(R)
+
+    def intact(x, v):
+        try:
+            return not isinstance(x, np.ndarray) or (x.shape == () and x == v)
+        except Exception:   # noqa
+            return False
     for n in range(a, b):
         for m in range(-n, n + 1, 2):
+            if m < 0 and fm_ in UNSIGNED_FORMS:
+                continue            # an unsigned type cannot spell a negative m
             am = abs(m)
             g = (n + am) // 2
             want = {'nm_to_fringe': g * g + 1 + 2 * (g - am) + (1 if m < 0 else 0), 'nm_to_ansi_j': (n * (n + 2) + m) // 2}
             for name, jw in want.items():
-                out = R.call(getattr(pp, name), cn(n), cm(m), hygiene=False, sig=f'{name}:{fn_},{fm_}:exception')
+                if name == 'nm_to_ansi_j' and m < 0 and fn_ in UNSIGNED_FORMS and fm_ == 'int':
+                    continue        # numpy refuses unsigned + negative python int (OverflowError) on the pinned tree: not in the domain
+                xn, xm = cn(n), cm(m)
+                out = R.call(getattr(pp, name), xn, xm, hygiene=False, sig=f'{name}:{fn_},{fm_}:exception')
+                N.check(intact(xn, n) and intact(xm, m), f'{name}:{fn_},{fm_}:argument-modified', lambda: f'after {name}({fn_}({n}), {fm_}({m})) the caller\'s arguments are {xn!r}, {xm!r}')
                 if out is FAILED:
                     continue
-                j = as_int(out) if (fn_ in INT_FORMS and fm_ in INT_FORMS) else as_int_value(out)
+                j = as_int(out) if both_int else as_int_value(out)
                 N.check(j == jw, f'{name}:{fn_},{fm_}', lambda: f'{name}({fn_}({n}), {fm_}({m})) returned {out!r}, expected {jw}')
             # nm_to_name is a pure index function too: its answer must not depend on the integer type of its arguments
             # (the names themselves are not part of C11; only form-invariance is judged)
@@ -400,6 +575,128 @@ def run_forms_zero(case, seed, R):
                 N.check(isinstance(out, str) and out == base, 'nm_to_name:signed-zero', lambda: f'nm_to_name({fn_}({n}), {zn}) = {out!r} but {base!r} for m = 0')
     R.nontrivial()
     R.outcome('forms:zero')
+
+
+# ---------------------------------------------------------------------------------------------
+# call histories whose EARLIER call uses another spelling of an index -- including spellings outside the map's domain, whose own
+# answer (garbage, an exception) is not judged: the later plain-int call must be right whatever happened before.
+
+_CODE = {}
+
+
+def fresh_map(conv):
+    """The forward map of a newly executed copy of its defining module: module-level state (memo tables, hints, grown lists) as in
+    a fresh process, whatever earlier cases did in this worker.  Falls back to the imported function if the copy cannot be made."""
+    f = getattr(pp, FWD[conv])
+    try:
+        g = inspect.unwrap(f)
+        src = sys.modules[g.__module__]
+        if src.__file__ not in _CODE:
+            with open(src.__file__, 'rb') as fh:
+                _CODE[src.__file__] = compile(fh.read(), src.__file__, 'exec')
+        spec = importlib.util.spec_from_file_location(g.__module__ + '_c11fresh', src.__file__)
+        mod = importlib.util.module_from_spec(spec)
+        exec(_CODE[src.__file__], mod.__dict__)
+        return getattr(mod, g.__name__)
+    except Exception:   # noqa
+        _prime(f, conv, max(HIST_LARGE))
+        return f
+
+
+EARLIER_EXTRA = ('float', 'half', 'neg')     # python float, the non-integer j + 0.5, the negative -j
+TYPE_EDGES = [14, 15, 16, 120, 121, 127, 128, 253, 254, 255, 256, 1024, 1025, 1034, 1035, 2048, 4094, 4095, 4096,
+              32640, 32641, 32767, 32768, 65341, 65342, 65535, 65536]
+
+
+def earlier_forms(conv):
+    """EVERY numpy scalar type and its 0-d array (in the map's domain or not), python float, and two values no index can have.
+    j + 0.5 is left out for xy_j_to_mn: its walking loops do not terminate for a non-integer on the pinned tree."""
+    out = [f'sc:{dt}' for dt in NP_TYPES] + [f'0d:{dt}' for dt in NP_TYPES] + list(EARLIER_EXTRA)
+    if conv == 'xy':
+        out.remove('half')
+    return out
+
+
+def earlier_make(form, j):
+    if form == 'half':
+        return j + 0.5
+    if form == 'neg':
+        return -j
+    return form_make(form, j)
+
+
+def _earlier_call(g, conv, form, j, ref, N, R, fn):
+    """the earlier call: judged iff (map, form, j) is a domain cell, otherwise only made"""
+    x = earlier_make(form, j)
+    if x is None:
+        return False
+    R.tick(1)
+    try:
+        with np.errstate(all='ignore'):      # wrapped arithmetic on narrow types only warns; the warning is not what is judged
+            out = g(x)
+    except Exception as e:   # noqa
+        out = FAILED
+        if form not in ('half', 'neg') and j <= form_bound(conv, form):
+            N.check(False, f'{fn}:{fam(form)}:exception', f'{fn}({form}({j})) raised {type(e).__name__}: {e}')
+    if out is not FAILED and form not in ('half', 'neg') and j <= form_bound(conv, form):
+        ok, n, m = as_pair_value(out)
+        N.check(ok and (n, m) == ref[j], f'{fn}:{fam(form)}', lambda: f'{fn}({form}({j})) returned {out!r}; the published order has {ref[j]}')
+    return True
+
+
+def run_history_forms_pairs(case, seed, R):
+    """g(form(j1)) -- not judged outside the domain -- then g(j2) with a python int, judged; for every j1, j2 of the alphabets, every
+    pair on a fresh copy of the module."""
+    conv, form = case['conv'], case['form']
+    fn = FWD[conv]
+    ref = _ref_table(conv, max(HIST_LARGE + TYPE_EDGES) + 10)
+    j0 = first_index(conv, 0)
+    N = Notes(R)
+    firsts = [j for j in list(range(j0, 41)) + TYPE_EDGES + HIST_LARGE]
+    base2 = list(range(j0, 41)) + HIST_LARGE
+    for j1 in firsts:
+        if earlier_make(form, j1) is None:
+            continue
+        g = fresh_map(conv)
+        seconds = sorted({j for j in (j1 - 1, j1, j1 + 1) if j >= j0} | set(base2))
+        # the same value first: a table keyed on the VALUE of the index answers the int call with what the other spelling left
+        for j2 in [j1] + [j for j in seconds if j != j1]:
+            _earlier_call(g, conv, form, j1, ref, N, R, fn)
+            for spell, x2 in (('int', j2), ('int64', np.int64(j2))):
+                out = R.call(g, x2, hygiene=False, sig=f'{fn}:exception')
+                if out is FAILED:
+                    continue
+                ok, n, m = as_pair(out)
+                N.check(ok and (n, m) == ref[j2], f'{fn}:history:after-form:{fam(form)}',
+                        lambda: f'{fn}({spell}({j2})) called after {fn}({form}({j1})) [whose own answer is not judged] returned {out!r}; the published order has {ref[j2]}')
+    R.nontrivial()
+    R.outcome('formpairs:' + conv)
+
+
+def run_history_forms_sweep(case, seed, R):
+    """on one fresh copy of the module: every index <= J in the other spelling first (judged only inside the domain cell), then every
+    index as a python int and as np.int64 (judged), then the other spelling again (judged inside the cell: int first must not hurt either)."""
+    conv, form, J = case['conv'], case['form'], case['J']
+    fn = FWD[conv]
+    ref = _ref_table(conv, J + 10)
+    j0 = first_index(conv, 0)
+    N = Notes(R)
+    g = fresh_map(conv)
+    made = 0
+    for j in range(j0, J + 1):
+        made += _earlier_call(g, conv, form, j, ref, N, R, fn)
+    for spell, cast in (('int', int), ('int64', np.int64)):
+        for j in range(j0, J + 1):
+            out = R.call(g, cast(j), hygiene=False, sig=f'{fn}:exception')
+            if out is FAILED:
+                continue
+            ok, n, m = as_pair(out)
+            N.check(ok and (n, m) == ref[j], f'{fn}:history:sweep-after-form:{fam(form)}',
+                    lambda: f'{fn}({spell}({j})) after a sweep of {made} calls {fn}({form}(.)) [not judged] returned {out!r}; the published order has {ref[j]}')
+    for j in range(j0, J + 1):
+        _earlier_call(g, conv, form, j, ref, N, R, fn)
+    R.nontrivial()
+    R.outcome('formsweep:' + conv)
 
 
 def blocks(conv, J, size):
@@ -445,10 +742,21 @@ def plan(tier, seed):
     JS = 10_000 if tier == 'quick' else 100_000
     hs_cases = [{'conv': c, 'J': JS} for c in ('ansi', 'fringe', 'noll', 'xy')]
     JF = 2000 if tier == 'quick' else 20000
+    PM = 100_000 if tier == 'quick' else WIDE
     NF = 60 if tier == 'quick' else 150
-    ff_cases = [{'conv': c, 'form': fm, 'j0': j, 'j1': min(j + 500, JF + 1)} for c in ('ansi', 'fringe', 'noll', 'xy') for fm in FWD_FORMS[c] for j in range(0, JF + 1, 500)]
+    ff_cases = []
+    for c in ('ansi', 'fringe', 'noll', 'xy'):
+        for fm in forward_forms(c):
+            cnt = len(form_indices(c, fm, JF, PM))
+            parts = max(1, -(-cnt // (600 if c in ('noll', 'xy') else 1500)))
+            ff_cases += [{'conv': c, 'form': fm, 'JF': JF, 'PM': PM, 'part': i, 'parts': parts} for i in range(parts)]
+    ff_cases.sort(key=lambda c: (c['part'], c['conv'], c['form']))
     fz_cases = [{'form_n': f1, 'n0': 0, 'n1': NF + 1} for f1 in FORMS]
-    fi_cases = [{'form_n': f1, 'form_m': f2, 'n0': a, 'n1': min(a + 20, NF + 1)} for f1 in FORMS for f2 in FORMS for a in range(0, NF + 1, 20)]
+    fi_cases = [{'form_n': f1, 'form_m': f2, 'n0': a, 'n1': min(a + 30, NF + 1)} for f1 in FORMS for f2 in FORMS for a in range(0, NF + 1, 30)]
+    hfp_cases = [{'conv': c, 'form': fm} for c in ('ansi', 'fringe', 'noll', 'xy') for fm in earlier_forms(c)]
+    JH = 2000 if tier == 'quick' else 20000
+    hfs_cases = [{'conv': c, 'form': fm, 'J': JH} for c in ('ansi', 'fringe', 'noll', 'xy') for fm in earlier_forms(c)]
+    cells = '; '.join(f"{FWD[c]}: " + ', '.join(f"{dt} <= {b}" if b < WIDE else dt for dt, b in DOMAIN[c].items()) for c in DOMAIN)
     cover = ', '.join(f'{c}: j <= {per[c][0]} (rows <= {per[c][1]})' for c in per)
     return [
         ScopeUnit('index_blocks', cases, run_block,
@@ -461,13 +769,26 @@ def plan(tier, seed):
         ScopeUnit('history_sweeps', hs_cases, run_history_sweep,
                   f'per map, in one process: every index up to {JS} ascending, then descending, then ascending again, then in a scattered (stride 7919 mod J) order; every answer against the published order', chunk=1),
         ScopeUnit('forms_forward', ff_cases, run_forms_forward,
-                  f'argument forms: every index j <= {JF} of the forward maps given as python int, np.int32, np.int64, integer-valued python float and np.float64 (noll_to_nm: the three '
-                  'integer types only -- it refuses float-typed indices on the pinned tree, as Python indexing does; not part of the alphabet); the answer, compared by value, must be the '
-                  'published order; an exception is a violation'),
+                  f'argument forms of the forward maps: python int / float, EVERY numpy scalar type (int8..int64, uint8..uint64, float16/32/64) and the 0-d array of each '
+                  f'(plus a read-only 0-d int64), on exactly the (map, form, index range) cells the pinned tree answers correctly [largest index per cell; no entry = form not in the '
+                  f'domain; bare name = up to the measured bound {WIDE}: {cells}; python float as float64, noll_to_nm refuses float types]; inside a cell EVERY index <= {JF}, the '
+                  f'probe indices k^2+d, k(k+1)/2+d (k = 45..447, d = -1..2), 2^p+d (p = 7..17) up to {PM}, and the last 40 indices of a cell that ends earlier (0-d forms of xy_j_to_mn: every index <= {JF_XY_0D}, square / triangular probes up to {PM_XY_0D}); the answer, by value, '
+                  'must be the published order; an exception is a violation.  0-d arrays additionally: the caller\'s index object is unchanged by the call (also seen by the call-hygiene '
+                  'layer), a second conversion of the SAME object gives the same order, and one 0-d object reused for every index (buf[...] = j) is answered for its current content'),
+        ScopeUnit('history_forms', hfp_cases, run_history_forms_pairs,
+                  f'depth-2 histories across argument forms, each pair on a fresh copy of the map\'s module (fresh process state): g(form(j1)) then g(int(j2)) and g(np.int64(j2)); form over EVERY '
+                  f'numpy scalar type and its 0-d array -- in the domain cell or not -- python float, the non-integer j1+0.5 (not xy_j_to_mn: does not terminate on the pinned tree) and the negative '
+                  f'-j1; j1 over [first..40] + dtype edges {TYPE_EDGES} + {HIST_LARGE} (where the form can hold it), j2 over j1-1, j1, j1+1, [first..40] + {HIST_LARGE}, j2 = j1 first.  The earlier '
+                  'call is judged only inside its domain cell (outside it may return garbage or raise: not judged); the later plain-int call must equal the published order'),
+        ScopeUnit('history_forms_sweeps', hfs_cases, run_history_forms_sweep,
+                  f'per (map, earlier form) on one fresh copy of the module: every index <= {JH} in the earlier form (judged only inside its domain cell), then every index as python int and as '
+                  'np.int64 (judged against the published order), then the earlier form again (judged inside the cell)'),
         ScopeUnit('forms_inverse', fi_cases, run_forms_inverse,
-                  f'argument forms: every valid (n,m) with n <= {NF} through nm_to_fringe and nm_to_ansi_j with n and m independently given as python int, np.int32, np.int64, python float, '
-                  'np.float64 (all 25 combinations; negative float m is exactly what -abs(m) yields for float orders) against exact integer closed forms, by value; nm_to_name (a pure index '
-                  'function) must return the same string as for python ints for every form with an integer-typed m (float-typed m is refused by the pinned tree and left out)'),
+                  f'argument forms: every valid (n,m) with n <= {NF} through nm_to_fringe and nm_to_ansi_j with n and m independently given as python int, np.int32, np.int64, np.uint32, np.uint64 '
+                  '(m >= 0 only), python float, np.float32, np.float64, 0-d int64 / uint32 / float64 arrays (all 121 combinations; negative float m is exactly what -abs(m) yields for float '
+                  'orders; left out: narrow integer types, which overflow n(n+2) on the pinned tree from n = 10, and nm_to_ansi_j(unsigned n, negative python int m), refused by numpy) against '
+                  'exact integer closed forms, by value; 0-d arguments must be unchanged afterwards; nm_to_name (a pure index function) must return the same string as for python ints for every '
+                  'form with an integer-typed m (float-typed m is refused by the pinned tree and left out)'),
         ScopeUnit('forms_zero', fz_cases, run_forms_zero,
                   f'm = 0 spelled as a signed floating zero (-0.0, +0.0, np.float64(-0.0), -abs(0.0), -np.abs(np.float64(0)), -abs(np.float32(0))) for every even n <= {NF} in every form of n: '
                   'nm_to_fringe / nm_to_ansi_j must return the index of (n, 0), nm_to_name the name of (n, 0)'),
